@@ -130,8 +130,14 @@ func seqScenario(rng *RNG, model string) string {
 			switch rng.Intn(9) {
 			case 0:
 				r := c.regions[rng.Intn(len(c.regions))]
+				old := r.addr
 				r.addr = upAddr()
 				ev = "move"
+				if rng.Intn(3) == 0 && old != r.addr && !c.down[old] {
+					// hbase:meta lags behind: it reports the previous (live) server once or twice more
+					r.staleAddr, r.staleN = old, 1+rng.Intn(2)
+					ev = "movestale"
+				}
 			case 1:
 				rs := c.tableRegions("t")
 				r := rs[rng.Intn(len(rs))]
